@@ -184,7 +184,7 @@ def gen_case(rnd, prop, tier):
         pairs = [list(c) for c in itertools.combinations(attrs, 2)]
         wl = None if rnd.random() < 0.5 else rnd.sample(pairs, rnd.randint(1, len(pairs)))
         params = dict(rounds=rnd.choice([None, 1, 2, 3, 5]), noise=rnd.choice(['gaussian', 'gaussian', 'laplace']), bounded=bounded,
-                      alpha=rnd.choice([0.9, 0.9, 0.5, 0.2]), workload=wl, maxsize_mb=rnd.choice([25, 25, 25, 1e-3]))
+                      alpha=rnd.choice([0.9, 0.9, 0.5, 0.2]), workload=wl, maxsize_mb=rnd.choice([25, 25, 25, 1e-3, 6e-4, 3e-4]))
     elif mech == 'adagrid':
         tg = []
         if d >= 3 and rnd.random() < 0.3:
@@ -196,6 +196,10 @@ def gen_case(rnd, prop, tier):
              'argmin': {'argmin': 0.7}, 'repeat': {'repeat': 0.8},
              'mixed': {'zero': 0.1, 'outlier': 0.15, 'blackout': 0.1, 'allsup': 0.1, 'argmin': 0.2, 'repeat': 0.2, 'first': 0.1,
                        'nr_lowest': 0.3, 'many_min': 0.1}}[pol]
+    earlier = None
+    if rnd.random() < 0.12:
+        # an earlier run of the same mechanism in the same process, on other data of the same domain with as many records as D or D'
+        earlier = dict(seed=rnd.getrandbits(32), like=rnd.choice(['A', 'B']))
     prelude = []
     if rnd.random() < 0.15:
         prelude = [[eps, rnd.choice([4e-9, 1e-9, 1e-6, 1e-3])]]     # an earlier run in the same process with another delta
@@ -210,7 +214,7 @@ def gen_case(rnd, prop, tier):
                     weights[j] = 0.5       # the differing record is the only heaviest one
     return dict(engine='D', mech=mech, attrs=attrs, sizes=sizes, records=recs, weights=weights, new_weight=rnd.choice([1.0, 0.5]), adj=adj, idx=idx, newrec=newrec, eps=eps, delta=delta, params=params,
                 policy=dict(name=pol, rates=rates, shuffle=rnd.choice(['random', 'random', 'identity'])), rng_seed=rnd.getrandbits(32),
-                iters_cap=rnd.choice([1, 5, 20, 100]), prelude=prelude, how=how)
+                iters_cap=rnd.choice([1, 5, 20, 100]), prelude=prelude, how=how, earlier=earlier, aim_prng=rnd.random() < 0.5)
 
 
 def sample_view(case):
@@ -253,7 +257,10 @@ def execute(case, mod, data, rng):
             if mech == 'mst':
                 out = mod.MST(data, case['eps'], case['delta'])
             elif mech == 'aim':
-                m = mod.AIM(case['eps'], case['delta'], rounds=p['rounds'], max_model_size=p['max_model_size'])
+                if case.get('aim_prng'):
+                    m = mod.AIM(case['eps'], case['delta'], prng=rng, rounds=p['rounds'], max_model_size=p['max_model_size'])
+                else:
+                    m = mod.AIM(case['eps'], case['delta'], rounds=p['rounds'], max_model_size=p['max_model_size'])
                 m.prng = rng
                 out = m.run(data, [(tuple(w), wt) for w, wt in p['workload']])
             elif mech == 'mwem':
@@ -290,6 +297,13 @@ def run_case(case, prop):
     DA, DB = datasets(mbi, case)
     viol, faults, probes = [], {}, {}
     mech = case['mech']
+    if case.get('earlier'):
+        r0 = random.Random(case['earlier']['seed'])
+        n0 = len(DA.df) if case['earlier']['like'] == 'A' else len(DB.df)
+        rows0 = [[r0.randrange(s_) for s_ in case['sizes']] for _ in range(n0)]
+        D0 = mbi.Dataset(pd.DataFrame(np.array(rows0, dtype=int).reshape(n0, len(case['attrs'])), columns=case['attrs']), mbi.Domain(case['attrs'], case['sizes']))
+        execute(dict(case, prelude=[]), mod, D0, SimRNG(random.Random(case['earlier']['seed'] + 1), {}))
+        faults['earlier-run-same-mechanism-other-data'] = 1
     rngA = SimRNG(random.Random(case['rng_seed']), case['policy'])
     outA, excA = execute(case, mod, DA, rngA)
     if rngA.untracked:
@@ -459,6 +473,10 @@ def shrink(case, prop):
     if case['prelude']:
         c = copy.deepcopy(case)
         c['prelude'] = []
+        yield c
+    if case.get('earlier'):
+        c = copy.deepcopy(case)
+        c['earlier'] = None
         yield c
     if case.get('weights'):
         c = copy.deepcopy(case)
